@@ -54,6 +54,7 @@ func checkC20(c *Case, s *Stats) error {
 	vals := c.typedValues()
 	valsBefore := deepCopyValues(vals)
 	opt := c.Opt.opt()
+	optSlice := []trie.Opt{opt}
 	ptrs := [4]*bool{opt.DedupValue, opt.InnerPrefix, opt.LeafPrefix, opt.Complete}
 	var pointees [4]bool
 	for i, p := range ptrs {
@@ -64,11 +65,23 @@ func checkC20(c *Case, s *Stats) error {
 	var st *trie.SlimTrie
 	var berr error
 	err := guard("NewSlimTrie", func() error {
-		st, berr = trie.NewSlimTrie(c.spec().enc, keys, vals, opt)
+		if c.Scrib%2 == 1 {
+			// the variadic spelling with a slice the caller keeps
+			st, berr = trie.NewSlimTrie(c.encoder(), keys, vals, optSlice...)
+		} else {
+			st, berr = trie.NewSlimTrie(c.encoder(), keys, vals, opt)
+		}
 		return nil
 	})
 	if err != nil {
 		return err
+	}
+	if c.Scrib%2 == 1 {
+		s.class("options_passed_as_retained_slice")
+		if len(optSlice) != 1 {
+			return viol("opt-modified", "NewSlimTrie changed the length of the caller's option slice")
+		}
+		opt = optSlice[0]
 	}
 	if !reflect.DeepEqual(keys, keysBefore) {
 		return viol("keys-modified", "NewSlimTrie modified the caller's key slice")
